@@ -18,4 +18,4 @@ PY
   echo "$S check exit=$CE violations=$VL (without failing input: $NF)"
   grep -E "^# " $OUT/check_patched.log | sort | uniq -c | sort -rn | head -3 | cut -c1-200
 done
-rm -rf /var/tmp/pyvc-scratch-evidence
+find /var/tmp/pyvc-scratch-evidence -mindepth 1 -maxdepth 1 -mmin +120 -exec rm -rf {} + 2>/dev/null
